@@ -72,11 +72,16 @@ func (ctx *Ctx) cloop(node *node, tpl *Tpl, w io.Writer) {
 		for i := 0; i < len(child); i++ {
 			ch := &child[i]
 			err = tpl.writeNode(w, ch, ctx)
-			if err == ErrBreakLoop || err == ErrContLoop {
+			if err != nil {
 				break
 			}
 		}
 		ctx.chQB = chQB
+		if err != nil && err != ErrBreakLoop && err != ErrContLoop {
+			// Any other error (including interrupt signal) must reach the caller.
+			ctx.Err = err
+			return
+		}
 
 		// Modify counter var.
 		switch node.loopCntOp {
